@@ -278,13 +278,13 @@ theorem resolve_symbolic {now : Int} (h : 0 ≤ now) (s : Start) (hs : s.isSymbo
 
 /-- `epoch` needs no minimum age to be a valid start, only `0 ≤ now` -/
 theorem resolve_ok {now : Int} (h : 0 ≤ now) (s : Start)
-    (hat : ∀ t off, s = .explicit t off → t ≤ now) :
+    (hat : ∀ t off, s = .explicit t off → floorSec t ≤ now) :
     Resolved now (resolveStart true now (floorSec now) s).1 := by
   cases s with
   | explicit t off =>
     have := hat t off rfl
     simp only [resolveStart, if_true]
-    exact ⟨Int.le_trans (floorSec_le t) this, floorSec_whole t⟩
+    exact ⟨this, floorSec_whole t⟩
   | epoch =>
     simp only [resolveStart]
     exact ⟨h, by unfold usPerSec; omega⟩
@@ -350,7 +350,7 @@ theorem calc_publish (now : Int) (ref : Ref) (o : Options) :
 /-- the facts every other clause builds on: the start is a whole second not
 after `now`, and the elapsed time is exactly the (positive) distance to it -/
 theorem calc_core {now : Int} (ref : Ref) {o : Options} (h0 : 0 ≤ now)
-    (hat : ∀ t off, o.start = .explicit t off → t ≤ now) :
+    (hat : ∀ t off, o.start = .explicit t off → floorSec t ≤ now) :
     (calculateLiveParams now ref o).availabilityStartTime ≤ now ∧
     (calculateLiveParams now ref o).availabilityStartTime % usPerSec = 0 ∧
     (calculateLiveParams now ref o).elapsedTime =
